@@ -84,6 +84,9 @@ func enumerateCrashSites(c *core.Ctx, funcs []*ssa.Function) []crashSite {
 						add(f, in, "constslice", a.D.D(x).String(), x.X)
 					}
 				case *ssa.IndexAddr:
+					if other := rangeIndexOfOther(x.Index, x.X); other != nil {
+						add(f, in, "crossindex", a.D.D(x).String()+" with the index ranging over "+a.D.D(other).String(), other)
+					}
 					if ci := constInt(x.Index); ci >= 0 && !isArrayPtr(x.X) {
 						if _, ok := x.Index.(*ssa.Const); ok {
 							add(f, in, "constindex", a.D.D(x).String(), x.X)
@@ -100,6 +103,58 @@ func enumerateCrashSites(c *core.Ctx, funcs []*ssa.Function) []crashSite {
 		}
 	}
 	return out
+}
+
+// rangeIndexOfOther: idx is the index variable of a `for i := range X` loop
+// (go/ssa's rangeindex lowering: i = φ+1, guarded by i < len(X)) and base is a
+// different slice than X. Returns X, or nil.
+func rangeIndexOfOther(idx, base ssa.Value) ssa.Value {
+	bo, ok := idx.(*ssa.BinOp)
+	if !ok || bo.Op != token.ADD || bo.Block() == nil || bo.Block().Comment != "rangeindex.loop" {
+		return nil
+	}
+	blk := bo.Block()
+	iff, ok := blk.Instrs[len(blk.Instrs)-1].(*ssa.If)
+	if !ok {
+		return nil
+	}
+	cond, ok := iff.Cond.(*ssa.BinOp)
+	if !ok || cond.Op != token.LSS || cond.X != idx {
+		return nil
+	}
+	call, ok := cond.Y.(*ssa.Call)
+	if !ok || len(call.Call.Args) != 1 {
+		return nil
+	}
+	if b, ok := call.Call.Value.(*ssa.Builtin); !ok || b.Name() != "len" {
+		return nil
+	}
+	ranged := call.Call.Args[0]
+	if sameSlice(ranged, base) {
+		return nil
+	}
+	if _, isSlice := base.Type().Underlying().(*types.Slice); !isSlice {
+		return nil // arrays have a static length; not a peer-controlled bound
+	}
+	return ranged
+}
+
+func sameSlice(a, b ssa.Value) bool {
+	if a == b {
+		return true
+	}
+	// two loads of the same address / field with no intervening consideration: compare structurally
+	ua, ok1 := a.(*ssa.UnOp)
+	ub, ok2 := b.(*ssa.UnOp)
+	if ok1 && ok2 && ua.Op == token.MUL && ub.Op == token.MUL {
+		fa, ok1 := ua.X.(*ssa.FieldAddr)
+		fb, ok2 := ub.X.(*ssa.FieldAddr)
+		if ok1 && ok2 && fa.Field == fb.Field && fa.X == fb.X {
+			return true
+		}
+		return ua.X == ub.X
+	}
+	return false
 }
 
 func constInt(v ssa.Value) int64 {
@@ -428,6 +483,17 @@ func dischargeImplicit(c *core.Ctx, s crashSite, fnName, pos string, facts ens.F
 			return
 		}
 		c.Decide(ok, "C08-R1b", s.key, pos, fmt.Sprintf("len(%s) ≥ %d dominates the index", clip(base), need), fmt.Sprintf("%s is indexed at constant %d without a dominating length check", clip(base), need-1))
+	case "crossindex":
+		x := s.ins.(*ssa.IndexAddr)
+		idx := a.D.D(x.Index).String()
+		tgt := a.D.D(x.X).String()
+		// base = the slice the index ranges over; tgt = the slice being indexed
+		ok := has("lt("+idx+", len("+tgt+"))") || has("le(len("+base+"), len("+tgt+"))") || has("eq(len("+base+"), len("+tgt+"))") || has("eq(len("+tgt+"), len("+base+"))")
+		if !ok && argSafe(fnName, s.kind) != "" {
+			c.OK("C08-R1c", s.key, pos, "argued safe: "+argSafe(fnName, s.kind))
+			return
+		}
+		c.Decide(ok, "C08-R1c", s.key, pos, "index < len("+clip(tgt)+") on every path", fmt.Sprintf("%s is indexed by the loop variable of a range over %s, but nothing relates their lengths on this path: when %s is shorter the index is out of range", clip(tgt), clip(base), clip(tgt)))
 	case "assert":
 		checkBodyAssert(c, s, fnName, pos, facts, a)
 	case "divisor":
